@@ -48,6 +48,11 @@ func sendMessage(ctx context.Context, iface *net.Interface, sender senderFunc) e
 	}
 	defer s.Close()
 
+	if ctx.Err() != nil {
+		// The exchange ended (reply, NAK or timeout) while we were still looking up the peer: nothing to send.
+		return nil
+	}
+
 	barrier := time.Second * 100
 	delay := time.Millisecond * 700
 	for {
